@@ -656,11 +656,13 @@ func (e *Evaluator) evalConditionalBlock(condBlock *parser.ConditionalBlock) (va
 }
 
 func (e *Evaluator) evalBlockStatment(block *parser.BlockStatement) (value, error) {
+	verifEv("Block", "")
 	return e.evalStatments(block.Statements)
 }
 
 func (e *Evaluator) evalVar(v *parser.Var) (value, error) {
 	if val, ok := e.scope.get(v.Name); ok {
+		verifVar("Get", v.Name, val)
 		return val, nil
 	}
 	return nil, newErr(v, fmt.Errorf("%w: %s", ErrVarNotSet, v.Name))
